@@ -306,7 +306,8 @@ Definition rep_text (t : HWCText) : bool :=
   rep_opt rep_color (t_pix t) && rep_opt rep_color (t_bg t).
 Definition rep_gfx (g : HWCGfx) : bool :=
   in_range 0 2 (hg_type g) && is_u32 (hg_w g) && is_u32 (hg_h g) && is_u32 (hg_x g) && is_u32 (hg_y g) &&
-  negb (nilb (hg_data g)) && forallb byte_ok (hg_data g).
+  negb (nilb (hg_data g)) && forallb byte_ok (hg_data g) &&
+  (Z.of_nat (List.length (hg_data g)) <? 9007199254740992).   (* a Go slice; ceil(len/170) exact below 2^53 *)
 Definition rep_state (s : HWCState) : bool :=
   forallb is_u32 (s_ids s) && rep_opt rep_mode (s_mode s) && rep_opt rep_color (s_color s) &&
   rep_opt rep_ext (s_ext s) && rep_opt rep_text (s_text s) && rep_opt rep_gfx (s_gfx s) &&
